@@ -385,6 +385,19 @@ def handler : Handler := fun op j =>
       ("fwd", jCMat (fun f q => dftFwdPad ns ms (mk ms false) (cscale (sc Tm false)) (basis q) f) Nout Nin),
       ("inv_coded", jCMat (fun p q => dftInvCodedNd ns ms (mk ns true) (cscale (sc Tn true)) (basis q) p) Nin Nout),
       ("inv_doc", jCMat (fun p q => dftInvDocNd ns ms (mk ms true) (cscale (sc Tm true)) (basis q) p) Nin Nout)]))
+  | "abel" => do
+    -- quadrant assembly of the Abel transform with the single-quadrant matrix P (mc × mc) given
+    let n ← fNat? j "n"; let m ← fNat? j "m"
+    let bs ← blocks? j "P"
+    match bs with
+    | [(P, _, _)] =>
+      let nc := n / 2 + n % 2
+      let mc := m / 2 + m % 2
+      let basis (q : Nat) : V Float := fun p => if p = q then 1.0 else 0.0
+      some (ok (jObj [("mat", jMat (fun p q => abelEval P n m nc mc (basis q) p) (n * m) (n * m)),
+        ("doc", jMat (kronAxis m m 1 (abelRowMatrix P m mc)) (n * m) (n * m)),
+        ("ys", jYs (abelEval P n m nc mc) (n * m) (xsOf j))]))
+    | _ => none
   | "dftinit" => do
     let shape ← fNats? j "shape"
     let axes := fInts? j "axes"
